@@ -1,5 +1,6 @@
 import EinoV.Basic.JsonUtil
 import EinoV.Model.C09
+import EinoV.Model.C09Opt
 import EinoV.Expected.C09
 
 namespace EinoV.Oracle.C09
@@ -19,7 +20,7 @@ def parseCall (j : Json) : JE (String × String) := do
     answer: {"interleaved":[result per call after `sched`], "alone":[result per call alone],
              "complete":bool (every call got at least |layers| steps in `sched`)}
     The model runs with the Expected facts (all slots per run). -/
-def handle (c : Json) : JE Json := do
+def handleLayered (c : Json) : JE Json := do
   let layers ← (← J.arr c "layers").mapM parseLayer
   let calls ← (← J.arr c "calls").mapM parseCall
   let sched ← J.natList c "sched"
@@ -30,5 +31,125 @@ def handle (c : Json) : JE Json := do
     ("interleaved", J.mkStrs inter),
     ("alone", J.mkStrs al),
     ("complete", Json.bool complete)]
+
+/-! ### family "optshare": call options under Go slice semantics (Model/C09Opt.lean) -/
+
+open EinoV.C10 (Hd Slice Heap) in
+structure RawGroup where
+  shared : Nat
+  desig : Bool
+  target : List String
+  opts : List Nat
+  spare : Nat
+
+def parseGroup (j : Json) : JE RawGroup := do
+  pure { shared := J.natD j "shared" 0, desig := J.boolD j "desig" false,
+         target := (← J.strList j "target"), opts := (← J.natList j "opts"), spare := J.natD j "spare" 0 }
+
+def arrayOf (g : RawGroup) : List EinoV.C10.Hd :=
+  g.opts.map (fun n => (⟨n, none⟩ : EinoV.C10.Hd)) ++ List.replicate g.spare default
+
+def sliceOf (arr : Nat) (g : RawGroup) : EinoV.C10.Slice :=
+  ⟨arr, 0, g.opts.length, g.opts.length + g.spare⟩
+
+/-- the groups of one call: a shared group is a window into the array of the shared Option
+    value; an own group gets an array of its own, appended to the heap -/
+def buildCall (shared : List RawGroup) :
+    List RawGroup → EinoV.C10.Heap → List Opt.Group → EinoV.C10.Heap × List Opt.Group
+  | [], h, acc => (h, acc.reverse)
+  | g :: rest, h, acc =>
+    if g.shared > 0 then
+      match shared[g.shared - 1]? with
+      | some sg => buildCall shared rest h (⟨sg.desig, sg.target, sliceOf (g.shared - 1) sg⟩ :: acc)
+      | none => buildCall shared rest h acc
+    else
+      buildCall shared rest (h ++ [arrayOf g]) (⟨g.desig, g.target, sliceOf h.length g⟩ :: acc)
+
+def buildCalls (shared : List RawGroup) :
+    List (List RawGroup) → EinoV.C10.Heap → List (List Opt.Group) → EinoV.C10.Heap × List (List Opt.Group)
+  | [], h, acc => (h, acc.reverse)
+  | c :: rest, h, acc =>
+    let r := buildCall shared c h []
+    buildCalls shared rest r.1 (r.2 :: acc)
+
+def tags (hs : List EinoV.C10.Hd) : String :=
+  Tools.joinWith "," (hs.map fun h => "o" ++ toString h.id)
+
+def renderNodes (inp : String) (nodes : List Opt.Path) (seen : List (Option (List EinoV.C10.Hd))) : String :=
+  (nodes.zip seen).foldl (fun acc (p, s) =>
+    acc ++ "|" ++ p.getLastD "" ++ "=" ++ (match s with | some hs => tags hs | none => "?")) inp
+
+/-- case: {"family":"optshare","nodes":[[path]],"shared":[group],"calls":[{"in":..,"groups":[group]}],
+           "sched":[thread indices; thread = call * |nodes| + node]}
+    group: {"shared":k (0 = own),"desig":b,"target":[path],"opts":[ids],"spare":n}
+    answer: alone = the specification `visible`; interleaved = what the slice-level extraction
+    machine (with the Expected fact `extractOptionCopies`) lets every node read under `sched`. -/
+def handleOptShare (c : Json) : JE Json := do
+  let nodes ← (← J.arr c "nodes").mapM fun j => do (← J.asArr j).mapM J.asStr
+  let shared ← (← J.arr c "shared").mapM parseGroup
+  let rawCalls ← (← J.arr c "calls").mapM fun j => do
+    pure ((← J.str j "in"), (← (← J.arr j "groups").mapM parseGroup))
+  let sched ← J.natList c "sched"
+  let h0s : EinoV.C10.Heap := shared.map arrayOf
+  let (h0, calls) := buildCalls shared (rawCalls.map (·.2)) h0s []
+  let threads : List (Nat × Opt.Path) :=
+    (List.range calls.length).flatMap fun i => nodes.map fun p => (i, p)
+  let seen := Opt.seenAll Expected.C09.extractOptionCopies h0 (Opt.progOf calls threads) sched
+  let k := nodes.length
+  let al := (rawCalls.zip calls).map fun ((inp, _), gs) =>
+    renderNodes inp nodes (nodes.map fun p => some (Opt.visible h0 gs p))
+  let inter := (List.range calls.length).map fun i =>
+    renderNodes ((rawCalls[i]?.map (·.1)).getD "") nodes ((seen.drop (i * k)).take k)
+  pure <| Json.mkObj [
+    ("interleaved", J.mkStrs inter),
+    ("alone", J.mkStrs al),
+    ("complete", Json.bool (seen.all (·.isSome)))]
+
+/-! ### family "toollist": a ToolsNode run with a `WithToolList` call option -/
+
+def parseTool (j : Json) : JE (String × String) := do pure ((← J.str j "name"), (← J.str j "mark"))
+def parseTCall (j : Json) : JE (String × String) := do pure ((← J.str j "name"), (← J.str j "arg"))
+
+def renderRun (o : Option String) : String := o.getD "!error"
+
+/-- case: {"family":"toollist","lists":[[{"name","mark"}]],"dflt":[…],
+           "runs":[{"hasList":b,"list":idx,"calls":[{"name","arg"}]}],"sched":[run indices]}
+    answer per run: the outputs of its tool calls executed by the tools of ITS list (alone), and
+    by the conversion the node-level machine hands it under `sched` (interleaved; memo = the
+    Expected fact `toolsNodeRunPathWrites ≠ []`). -/
+def handleToolList (c : Json) : JE Json := do
+  let lists ← (← J.arr c "lists").mapM fun j => do (← J.asArr j).mapM parseTool
+  let dflt ← (← J.arr c "dflt").mapM parseTool
+  let runs ← (← J.arr c "runs").mapM fun j => do
+    pure (J.boolD j "hasList" false, J.natD j "list" 0, (← (← J.arr j "calls").mapM parseTCall))
+  let sched ← J.natList c "sched"
+  let listOf : Nat → Nat := fun k => match runs[k]? with | some (_, l, _) => l | none => 0
+  let memo := !Expected.C09.toolsNodeRunPathWrites.isEmpty
+  let st := Tools.exec memo listOf sched Tools.St.init
+  let al := runs.map fun (has, l, calls) =>
+    renderRun (if has then (lists[l]?).bind (fun tl => Tools.runOut tl calls) else Tools.runOut dflt calls)
+  let inter := (List.range runs.length).map fun k =>
+    match runs[k]? with
+    | none => "?"
+    | some (has, _, calls) =>
+      if has then
+        match (st.rs k).tuple with
+        | none => "?"
+        | some l => renderRun ((lists[l]?).bind (fun tl => Tools.runOut tl calls))
+      else renderRun (Tools.runOut dflt calls)
+  let complete := (List.range runs.length).all fun k =>
+    match runs[k]? with
+    | some (true, _, _) => (st.rs k).tuple.isSome
+    | _ => true
+  pure <| Json.mkObj [
+    ("interleaved", J.mkStrs inter),
+    ("alone", J.mkStrs al),
+    ("complete", Json.bool complete)]
+
+def handle (c : Json) : JE Json :=
+  match J.strD c "family" "" with
+  | "optshare" => handleOptShare c
+  | "toollist" => handleToolList c
+  | _ => handleLayered c
 
 end EinoV.Oracle.C09
